@@ -315,7 +315,15 @@ func (r *Run) writeEvidence(violations int) {
 
 // ---- main ----------------------------------------------------------------------------------
 
+// extraCommands are registered by build-tagged files (e.g. the sched build).
+var extraCommands = map[string]func(args []string) int{}
+
 func Main(args []string) int {
+	if len(args) >= 1 {
+		if h, ok := extraCommands[args[0]]; ok {
+			return h(args[1:])
+		}
+	}
 	if len(args) >= 1 && args[0] == "__worker" {
 		WorkerMain()
 		return 0
